@@ -1,5 +1,6 @@
 """Kani harness registry (sources in kx/harness/, injected into a scratch copy of /repo on every run)."""
 INJECT = {
+    "cli_extract": {"owner": "cli/src/import/extract.rs", "decl": "#[cfg(kani)]\nmod kani_h;", "src": "cli_extract.rs", "dest": "cli/src/import/extract/kani_h.rs"},
     "core_parse_adaptor": {"owner": "core/src/parse/adaptor.rs", "decl": "#[cfg(kani)]\nmod kani_h;", "src": "core_parse_adaptor.rs", "dest": "core/src/parse/adaptor/kani_h.rs"},
     "core_tracked_ctor": {"owner": "core/src/syntax/tracked.rs", "decl": "#[cfg(kani)]\nimpl TrackedSpan {\n    pub fn kani_new(span: Range<usize>) -> TrackedSpan {\n        TrackedSpan(span)\n    }\n}"},
     "core_display": {"owner": "core/src/syntax/display.rs", "decl": "#[cfg(kani)]\nmod kani_h;", "src": "core_display.rs", "dest": "core/src/syntax/display/kani_h.rs"},
@@ -8,6 +9,8 @@ INJECT = {
     "core_parse_error": {"owner": "core/src/parse/error.rs", "decl": "#[cfg(kani)]\nmod kani_h;", "src": "core_parse_error.rs", "dest": "core/src/parse/error/kani_h.rs"},
 }
 HARNESSES = {
+    "extractor_matches_statement_2rules": {"crate": "okane", "inject": ["cli_extract"], "bound": "<= 2 rules x <= 2 OR-elements x <= 2 AND-fields; symbolic matcher answers, payees/codes/accounts from {None, p1, p2}", "timeout": 1800},
+    "extractor_matches_statement_3rules": {"crate": "okane", "inject": ["cli_extract"], "bound": "3 rules x <= 2 OR-elements x <= 2 AND-fields", "timeout": 3600},
     "clip_complete": {"crate": "okane-core", "inject": ["core_parse_adaptor", "core_tracked_ctor"], "bound": "none (loop-free, full usize domain)", "complete": True, "timeout": 600},
     "resolve_is_clip": {"crate": "okane-core", "inject": ["core_parse_adaptor", "core_tracked_ctor"], "bound": "none (loop-free, full usize domain)", "complete": True, "timeout": 600},
     "parsed_context_line_and_slice": {"crate": "okane-core", "inject": ["core_parse_adaptor", "core_tracked_ctor"], "bound": "ASCII text <= 6 bytes; every span", "timeout": 900},
